@@ -754,6 +754,8 @@ class SimCluster(object):
         if rule is not None and rule["act"] == "error":
             snap = self.metadata_snapshot(names)
             for t in snap["topics"]:
+                if rule.get("only_topics") and t["name"] not in rule["only_topics"]:
+                    continue  # a partial failure: the other topics are answered as they are
                 t["error"] = rule["code"]
                 t["partitions"] = []
             self.respond(broker, st, entry, snap, rule)
